@@ -12,6 +12,11 @@ import (
 func Globs(dir string, globs []*ast.Glob) ([]string, error) {
 	resultMap := make(map[string]bool)
 	for _, g := range globs {
+		if g == nil {
+			// an empty list entry (`sources: [~]`); watch mode passes the
+			// task as written in the Taskfile
+			continue
+		}
 		matches, err := glob(dir, g.Glob)
 		if err != nil {
 			continue
